@@ -250,3 +250,117 @@ Proof.
   assert (E : eps == 0) by (setoid_replace eps with ((1 # 2) * (2 * eps)) by ring; symmetry; exact Hxy).
   rewrite E in He. exact (Qlt_irrefl _ He).
 Qed.
+
+From Coq Require Import Qround.
+(* ================================================================== *)
+(* the coordinate convention of the input                               *)
+(* ================================================================== *)
+Section ConvP.
+  Context {P : Type} (pos : Q -> Q -> P) (T : Q).
+  Context (pos_ext : forall a a' d d', a == a' -> d == d' -> pos a d = pos a' d').
+  Context (pos_per : forall a d, pos (a + T) d = pos a d).
+
+  Lemma pos_shift_nat (n : nat) a d : pos (a + inject_Z (Z.of_nat n) * T) d = pos a d.
+  Proof.
+    induction n as [|n IH].
+    - apply pos_ext; [simpl; ring|reflexivity].
+    - rewrite <- IH, <- (pos_per (a + inject_Z (Z.of_nat n) * T) d).
+      apply pos_ext; [|reflexivity]. rewrite Nat2Z.inj_succ. unfold Z.succ. rewrite inject_Z_plus. ring.
+  Qed.
+  Lemma pos_shift (k : Z) a d : pos (a + inject_Z k * T) d = pos a d.
+  Proof.
+    destruct (Z_le_gt_dec 0 k) as [H|H].
+    - rewrite <- (Z2Nat.id k H). apply pos_shift_nat.
+    - assert (H' : (0 <= - k)%Z) by lia.
+      rewrite <- (pos_shift_nat (Z.to_nat (- k)) (a + inject_Z k * T) d).
+      apply pos_ext; [|reflexivity]. rewrite (Z2Nat.id _ H'), inject_Z_opp. ring.
+  Qed.
+
+  (* the right ascension moved by whole periods of the unit (T' = T / c), an own number per object *)
+  Lemma read_shift c T' k o : c * T' == T -> read pos c (shift_ra T' k o) = read pos c o.
+  Proof.
+    intro HT. unfold read, shift_ra. cbn [cra cdec cw cpatch]. f_equal.
+    rewrite <- (pos_shift (k o) (c * cra o) (c * cdec o)).
+    apply pos_ext; [|reflexivity]. rewrite <- HT. ring.
+  Qed.
+  (* the same coordinates in another unit, read with the factor of that unit *)
+  Lemma read_unit c u o : ~ u == 0 -> read pos (c / u) (in_unit u o) = read pos c o.
+  Proof.
+    intro Hu. unfold read, in_unit. cbn [cra cdec cw cpatch]. f_equal.
+    apply pos_ext; field; exact Hu.
+  Qed.
+  Theorem read_convention c u T' k (A : list cobj) : c * T' == T -> ~ u == 0 ->
+    map (read pos (c / u)) (map (in_unit u) (map (shift_ra T' k) A)) = map (read pos c) A.
+  Proof.
+    intros HT Hu. rewrite !map_map. apply map_ext. intro o.
+    rewrite read_unit by exact Hu. apply read_shift. exact HT.
+  Qed.
+
+  (* a wrap of the right ascension into [0, W) is harmless exactly when W is a period in the unit of the input *)
+  Theorem read_wrapped_period W c o : c * W == T -> read_wrapped pos W c o = read pos c o.
+  Proof.
+    intros HT. unfold read_wrapped, read, wrap. f_equal.
+    rewrite <- (pos_shift (- Qfloor (cra o / W)) (c * cra o) (c * cdec o)).
+    apply pos_ext; [|reflexivity]. rewrite inject_Z_opp, <- HT. ring.
+  Qed.
+
+  Section Counts.
+    Context (ang : P -> P -> Q).
+    (* every catalog in a convention of its own: unit uA / uB, period shifts kA / kB *)
+    Theorem count_ra_convention c uA uB T' kA kB lo hi (A B : list cobj) : c * T' == T -> ~ uA == 0 -> ~ uB == 0 ->
+      count ang lo hi (map (read pos (c / uA)) (map (in_unit uA) (map (shift_ra T' kA) A)))
+                      (map (read pos (c / uB)) (map (in_unit uB) (map (shift_ra T' kB) B)))
+      = count ang lo hi (map (read pos c) A) (map (read pos c) B).
+    Proof. intros HT HA HB. rewrite !read_convention by assumption. reflexivity. Qed.
+    Theorem loo_ra_convention c uA uB T' kA kB lo hi p (A B : list cobj) : c * T' == T -> ~ uA == 0 -> ~ uB == 0 ->
+      loo_count ang lo hi p (map (read pos (c / uA)) (map (in_unit uA) (map (shift_ra T' kA) A)))
+                            (map (read pos (c / uB)) (map (in_unit uB) (map (shift_ra T' kB) B)))
+      = loo_count ang lo hi p (map (read pos c) A) (map (read pos c) B).
+    Proof. intros HT HA HB. rewrite !read_convention by assumption. reflexivity. Qed.
+    Theorem norm_ra_convention c uA uB T' kA kB lo hi (A B : list cobj) : c * T' == T -> ~ uA == 0 -> ~ uB == 0 ->
+      norm_count ang lo hi (map (read pos (c / uA)) (map (in_unit uA) (map (shift_ra T' kA) A)))
+                           (map (read pos (c / uB)) (map (in_unit uB) (map (shift_ra T' kB) B)))
+      = norm_count ang lo hi (map (read pos c) A) (map (read pos c) B).
+    Proof. intros HT HA HB. rewrite !read_convention by assumption. reflexivity. Qed.
+  End Counts.
+End ConvP.
+
+(* ---------------- the circle: a concrete periodic reading ---------------- *)
+Lemma Qfloor_plus1 x : Qfloor (x + 1) = (Qfloor x + 1)%Z.
+Proof.
+  destruct x as [n d]. unfold Qplus, Qfloor. cbn [Qnum Qden].
+  rewrite Z.mul_1_r, Pos.mul_1_r, Z.mul_1_l.
+  replace (n + Z.pos d)%Z with (n + 1 * Z.pos d)%Z by ring.
+  apply Z.div_add. discriminate.
+Qed.
+Lemma wrap_comp W x y : x == y -> wrap W x == wrap W y.
+Proof.
+  intro E. unfold wrap.
+  assert (F : Qfloor (x / W) = Qfloor (y / W)) by (apply Qfloor_comp; rewrite E; reflexivity).
+  rewrite F, E. reflexivity.
+Qed.
+Lemma wrap_period W x : ~ W == 0 -> wrap W (x + W) == wrap W x.
+Proof.
+  intro HW. unfold wrap.
+  assert (E : (x + W) / W == x / W + 1) by (field; exact HW).
+  rewrite (Qfloor_comp _ _ E), Qfloor_plus1, inject_Z_plus. change (inject_Z 1) with 1. ring.
+Qed.
+Lemma circle_pos_ext T a a' d d' : a == a' -> d == d' -> circle_pos T a d = circle_pos T a' d'.
+Proof.
+  intros Ea Ed. unfold circle_pos. f_equal; apply Qred_complete; [apply wrap_comp; exact Ea|exact Ed].
+Qed.
+Lemma circle_pos_per T a d : ~ T == 0 -> circle_pos T (a + T) d = circle_pos T a d.
+Proof. intro HT. unfold circle_pos. f_equal. apply Qred_complete. apply wrap_period. exact HT. Qed.
+
+(* the wrap of the code under test's unit applied whatever the unit: a period of 360 on coordinates whose period is not a
+   divisor of 360 (radian: 2 pi; here 7) moves the objects given with a negative right ascension *)
+Theorem wrap_before_unit_refuted :
+  exists (T W : Q) (A B : list cobj) lo hi,
+    (forall a a' d d', a == a' -> d == d' -> circle_pos T a d = circle_pos T a' d') /\
+    (forall a d, circle_pos T (a + T) d = circle_pos T a d) /\
+    ~ count (circle_ang T) lo hi (map (read_wrapped (circle_pos T) W 1) A) (map (read_wrapped (circle_pos T) W 1) B)
+      == count (circle_ang T) lo hi (map (read (circle_pos T) 1) A) (map (read (circle_pos T) 1) B).
+Proof.
+  exists 7, 360, [{| cra := - (1); cdec := 0; cw := 2; cpatch := 0%nat |}], [{| cra := 0; cdec := 0; cw := 3; cpatch := 0%nat |}], 0, (3 # 2).
+  split; [apply circle_pos_ext|]. split; [intros a d; apply circle_pos_per; discriminate|]. vm_compute. discriminate.
+Qed.
